@@ -104,6 +104,26 @@ def run(ctx):
                     if kind == "startcode" and pos == 0:
                         continue    # bytes before the first start code belong to no entry
                     add(rpus, rng.choice(cs), pos, note + "/" + kind, kind)
+    # runs of identical RPUs with one corrupted copy, and same-length neighbours that differ (with 3 trailing zeros,
+    # so that their last bytes coincide): a reader must parse every entry on its own
+    for f in range(6 if ctx.tier == "quick" else 60):
+        base = rng.choice(pool)
+        k = rng.choice([3, 12, 40])
+        c = rng.choice([8192, 10000, 16384])
+        add([base] * k, c, None, "copies/valid")
+        for pos in (1, k // 2, k - 1):
+            add([base] * k, c, pos, "copies/corrupt-crc", "crc")
+        sib = []
+        for j in range(k):
+            d = bytearray(base.rstrip(b"\x00"))
+            d[len(d) // 2] = (d[len(d) // 2] + j) & 0xFF
+            sib.append(specgen.repair_crc(bytes(d)) + b"\x00\x00\x00")
+        # siblings that do not parse (the changed byte broke the syntax) are fine: the expectation below is computed
+        # per entry by the model and the real parser alike; keep only the readable ones
+        chk, _, _ = common.run_lines(common.LIBCASE, ["rpu.json " + hx(x) for x in sib])
+        sib = [x for x, o in zip(sib, chk) if o.startswith("ok {")]
+        if len(sib) >= 2:
+            add(sib, c, None, "same-length-siblings/3-trailing-zeros")
     # exact multiple of the chunk size by trailing padding
     for _ in range(4):
         rpus = [rng.choice(pool) for _ in range(40)]
